@@ -6,6 +6,7 @@ import (
 	"io"
 	"os"
 	"path/filepath"
+	"regexp"
 	"sort"
 	"strings"
 
@@ -57,6 +58,21 @@ func c04Case(c *core.Ctx) *core.Result {
 	document.VerifResetGlobals()
 	r := caseRng(c)
 	f := gen.MakeForeign(rng.Derive(c.Seed, h64("C04foreign"), uint64(c.Case)), gen.ForeignOpts{})
+	if m := regexp.MustCompile(`</((?:\w+:)?)Types>\s*$`).FindSubmatchIndex(f.Parts["[Content_Types].xml"]); c.Case == 11 && m != nil {
+		// one package with a very large part (an embedded recording, a scan): 64 MiB and a bit, written back byte for byte like
+		// any other part
+		big := make([]byte, 64<<20+4096)
+		for i := 0; i < len(big); i += 4093 {
+			big[i] = byte(i >> 12)
+		}
+		copy(big[len(big)-16:], "end-of-big-part!")
+		f.Parts["word/embeddings/recording.bin"] = big
+		f.Order = append(f.Order, "word/embeddings/recording.bin")
+		ct := f.Parts["[Content_Types].xml"]
+		pfx := string(ct[m[2]:m[3]])
+		f.Parts["[Content_Types].xml"] = []byte(string(ct[:m[0]]) + "<" + pfx + `Override PartName="/word/embeddings/recording.bin" ContentType="application/octet-stream"/>` + string(ct[m[0]:]))
+		res.Count("packages_with_a_part_above_64MiB", 1)
+	}
 	raw := f.Bytes(rng.Derive(c.Seed, 13, uint64(c.Case)))
 	P := opc.Read(raw)
 	if probs := append(P.CheckC01(), P.CheckC02()...); len(probs) > 0 {
@@ -104,7 +120,34 @@ func c04Case(c *core.Ctx) *core.Result {
 	for i := 0; i < nEdits; i++ {
 		var name string
 		cg := core.Catch(func() {
-			switch r.Intn(11) {
+			switch r.Intn(12) {
+			case 11:
+				// a picture paragraph of the opened body is removed again (it carries no text): the picture's file may still be
+				// shown elsewhere - by a header through the header's own relationships - and is a part like any other
+				name = "RemovePictureParagraph"
+				for _, el := range d.Body.Elements {
+					if p, ok := el.(*document.Paragraph); ok {
+						pic, txt := false, false
+						for _, run := range p.Runs {
+							pic = pic || run.Drawing != nil
+							txt = txt || run.Text.Content != ""
+						}
+						if pic && !txt {
+							if r.Bool() {
+								d.RemoveParagraph(p)
+							} else {
+								for i, e2 := range d.Body.Elements {
+									if e2 == el {
+										d.RemoveElementAt(i)
+										break
+									}
+								}
+							}
+							res.Count("picture_paragraphs_removed", 1)
+							break
+						}
+					}
+				}
 			case 9:
 				name = "UpdateTOC"
 				d.UpdateTOC() // an error ("no table of contents") is a legitimate answer
